@@ -17,7 +17,19 @@ RUN_WALL_LIMIT_S = int(os.environ.get('VERIF_RUN_WALL_LIMIT_S', '300'))
 
 def load_prop(pid):
     env.install()
-    return importlib.import_module(f'simverif.props.{pid.lower()}')
+    mod = importlib.import_module(f'simverif.props.{pid.lower()}')
+    # Run.finish() collects garbage at a deterministic point of every run; freezing what is alive
+    # after the imports keeps that collection from re-scanning the whole module graph each time.
+    try:
+        env.import_lbry()
+        warm = getattr(mod, 'warm_imports', None)
+        if warm is not None:
+            warm()
+    finally:
+        import gc
+        gc.collect()
+        gc.freeze()
+    return mod
 
 
 def run_seed_for(base_seed, pid, index):
